@@ -2,7 +2,8 @@
    Models: Model/Walk.v (afero path.go, path/filepath path.go), Model/Glob.v (afero match.go,
    path/filepath match.go incl. Match).  Results are compared as a whole: final callback state (so, for
    a logging callback, the visited paths, their order and directory flags), and the returned error. *)
-From AF Require Import Lib.Bytes Lib.Path Gen.Consts Model.Walk Model.Glob Proofs.WalkProof Proofs.GlobProof.
+From AF Require Import Lib.Bytes Lib.Path Gen.Consts Model.Walk Model.Glob Model.MatchNoEsc
+  Proofs.WalkProof Proofs.GlobProof Proofs.GlobAllProof Proofs.MatchNoEscProof.
 
 (* ---- Walk.  For EVERY tree, root (existing directory / file / missing / unclean), callback state
    machine over any state type and initial state: afero.Walk with the final `SkipDir -> nil`
@@ -40,7 +41,11 @@ Proof.
 Qed.
 Print Assumptions C16_walk_current_diff.
 
-(* ---- Glob.  For every tree and every well-formed pattern without escapes (grammar of Match, see
+(* ---- Glob.  [afero_glob] is match.go as it is in /repo NOW: [afero_glob_gen bs chk] with the two
+   behaviour switches the translator reads from match.go (hasMeta counts the backslash; Glob starts with
+   the pattern check of path/filepath.Glob).  The theorems of this first group hold for either value of
+   the switches.
+   For every tree and every well-formed pattern without escapes (grammar of Match, see
    Model/Glob.v [well_formed]) below filepath.Glob's recursion limit: the same matches in the same
    order and the same (nil) error. *)
 Theorem C16_glob_eq : forall (t : tree) (pat : str),
@@ -91,6 +96,66 @@ Theorem C16_glob_fuel : forall (t : tree) (pat : str), snd (afero_glob t pat) <>
 Proof. exact afero_glob_fuel. Qed.
 Print Assumptions C16_glob_fuel.
 
+(* ---- Glob, ALL patterns (escapes and malformed patterns included; beyond the statement of C16, this
+   is what C15 "Glob agrees with the generic version" needs from match.go).  These depend on the
+   switches: the code of /repo as it is NOW (constants regenerated from match.go on every check) agrees
+   with path/filepath.Glob on every tree and every pattern below filepath's recursion limit ... *)
+Theorem C16_glob_eq_all : forall (t : tree) (pat : str),
+  (N.of_nat (length pat) < 10000)%N -> afero_glob t pat = std_glob t pat.
+Proof. exact afero_glob_eq_std_all. Qed.
+Print Assumptions C16_glob_eq_all.
+
+(* ... iff hasMeta counts the backslash and Glob checks the pattern first *)
+Theorem C16_glob_repo_iff :
+  (forall (t : tree) (pat : str), (N.of_nat (length pat) < 10000)%N -> afero_glob t pat = std_glob t pat)
+  <-> (glob_hasmeta_backslash = 1%Z /\ glob_checks_pattern_first = 1%Z).
+Proof. exact afero_glob_repo_eq_std_iff. Qed.
+Print Assumptions C16_glob_repo_iff.
+
+(* the pinned code (`*?[`, no check) is refuted twice: D["a"=F] with `\a` (an escape is the only meta
+   character: filepath finds "a", afero nothing) and D[] with `[` (filepath: ErrBadPattern, afero: nil) *)
+Theorem C16_glob_pinned_refuted :
+  (exists t pat, (N.of_nat (length pat) < 10000)%N /\ no_escape pat = false
+                 /\ std_glob t pat = ([[97%N]], GNil) /\ afero_glob_pinned t pat = ([], GNil))
+  /\ (exists t pat, (N.of_nat (length pat) < 10000)%N /\ no_escape pat = true
+                    /\ std_glob t pat = ([], GBadPattern) /\ afero_glob_pinned t pat = ([], GNil)).
+Proof. exact afero_glob_pinned_refuted. Qed.
+Print Assumptions C16_glob_pinned_refuted.
+
+(* a malformed pattern — Match(pattern, "") reports ErrBadPattern — is answered with ErrBadPattern and
+   no matches WHATEVER THE TREE (also when no directory entry is ever matched against it) *)
+Theorem C16_glob_malformed : forall (t : tree) (pat : str),
+  match_seg pat [] = None -> afero_glob t pat = ([], GBadPattern).
+Proof. exact afero_glob_malformed. Qed.
+Print Assumptions C16_glob_malformed.
+
+(* the same when the malformed part is a directory part Glob recurses into ([glob_accepts]: the check at
+   every level of the recursion); and these are exactly the patterns rejected on every tree *)
+Theorem C16_glob_rejects_iff : forall (pat : str),
+  glob_accepts pat = false <-> (forall t : tree, afero_glob t pat = ([], GBadPattern)).
+Proof. exact glob_accepts_iff. Qed.
+Print Assumptions C16_glob_rejects_iff.
+
+(* nothing changed for escape-free patterns.  (1) The matcher with escapes ([match_seg], filepath.Match
+   as both Globs call it) agrees with the escape-free matcher (Model/MatchNoEsc.v) on every pattern
+   without a backslash and every name: same verdict, same ErrBadPattern *)
+Theorem C16_match_no_escape : forall (pat name : str),
+  no_escape pat = true -> match_seg pat name = match_seg_ne pat name.
+Proof. exact match_seg_no_escape. Qed.
+Print Assumptions C16_match_no_escape.
+
+(* (2) hasMeta with the backslash is hasMeta without it, the per-level check is filepath's acceptance
+   as C16_glob_eq_accepted uses it, and Glob as it is now is the pinned Glob on every accepted
+   escape-free pattern (no bound on the length) *)
+Theorem C16_glob_eq_pinned : forall (t : tree) (pat : str),
+  no_escape pat = true -> std_accepts pat = true ->
+  has_meta_bs pat = has_meta pat /\ glob_accepts pat = true /\ afero_glob t pat = afero_glob_pinned t pat.
+Proof.
+  intros t pat Hne Hacc. split; [apply has_meta_bs_no_escape; exact Hne|].
+  split; [rewrite glob_accepts_no_escape; assumption|]. apply afero_glob_eq_pinned; assumption.
+Qed.
+Print Assumptions C16_glob_eq_pinned.
+
 (* ---- examples: the models compute, the hypotheses are satisfiable *)
 Definition ex_tree : tree :=
   D [([98], D [([120], F); ([97;46;98], F)]); ([97], F); ([97;45;98], D [([120], F)]); ([97;48], F)]%N.
@@ -124,9 +189,22 @@ Example C16_ex_glob :
   /\ fst (afero_glob ex_tree [47;91;97;45;98;93;42]%N) = [[47;97]; [47;97;45;98]; [47;97;48]; [47;98]]%N.
 Proof. repeat split; vm_compute; reflexivity. Qed.
 
-(* malformed "[" on an empty directory: filepath.Glob reports ErrBadPattern, afero.Glob does not
-   (outside the property: the pattern is not well-formed) *)
+(* malformed "[" on an empty directory: filepath.Glob reports ErrBadPattern; afero.Glob as pinned did
+   not, as it is now it does.  "[a/b]" is malformed in its directory part only *)
 Example C16_ex_malformed :
-  std_glob (D []) [91]%N = ([], GBadPattern) /\ afero_glob (D []) [91]%N = ([], GNil)
-  /\ well_formed [91]%N = false.
+  std_glob (D []) [91]%N = ([], GBadPattern) /\ afero_glob_pinned (D []) [91]%N = ([], GNil)
+  /\ afero_glob (D []) [91]%N = ([], GBadPattern)
+  /\ well_formed [91]%N = false /\ match_seg [91]%N [] = None
+  /\ glob_accepts [91;97;47;98;93]%N = false /\ afero_glob ex_tree [91;97;47;98;93]%N = ([], GBadPattern).
+Proof. repeat split; vm_compute; reflexivity. Qed.
+
+(* escapes: `/\a` finds /a (pinned: nothing, the name `\a` does not exist); `/a\-b/*` descends into a-b;
+   `/\[` is a literal "[" (nothing there), `/a\` is malformed (a trailing backslash) *)
+Example C16_ex_escape :
+  afero_glob ex_tree [47;92;97]%N = ([[47;97]%N], GNil)
+  /\ afero_glob_pinned ex_tree [47;92;97]%N = ([], GNil)
+  /\ afero_glob ex_tree [47;97;92;45;98;47;42]%N = ([[47;97;45;98;47;120]%N], GNil)
+  /\ afero_glob ex_tree [47;92;91]%N = ([], GNil)
+  /\ afero_glob ex_tree [47;97;92]%N = ([], GBadPattern)
+  /\ std_glob ex_tree [47;97;92]%N = ([], GBadPattern).
 Proof. repeat split; vm_compute; reflexivity. Qed.
